@@ -625,6 +625,14 @@ func c13Pipes(r *Run) {
 				return float64(x) / 2, true
 			case int8:
 				return float64(x) / 2, true
+			case int64:
+				return float64(x) / 2, true
+			case uint8:
+				return float64(x) / 2, true
+			case uint16:
+				return float64(x) / 2, true
+			case uint64:
+				return float64(x) / 2, true
 			case float64:
 				return x / 2, true
 			case string:
@@ -672,6 +680,18 @@ func c13Pipes(r *Run) {
 			}
 			return nil, false
 		}},
+		{"u8", "u8", func(v any) (any, bool) { // an unsigned parameter: negative numbers, fractions below zero and numbers above 255 do not fit
+			if f, ok := v.(float64); ok {
+				if f != f || f <= -1 || f >= 256 {
+					return nil, false
+				}
+				return uint8(f) + 1, true
+			}
+			if i, ok := asInt(v); ok && i >= 0 && i <= 255 {
+				return uint8(i) + 1, true
+			}
+			return nil, false
+		}},
 		{"inc8", "inc8", func(v any) (any, bool) { // a number that does not fit the int8 parameter is an impossible conversion
 			if i, ok := asInt(v); ok && i >= -128 && i <= 127 {
 				return int8(i) + 1, true
@@ -684,10 +704,12 @@ func c13Pipes(r *Run) {
 		val  any
 	}{{"a", 3}, {"s", "str"}, {"num", "12"}, {"xs", []any{1, 2, 3}}, {"t", true}, {"big", 300},
 		// a call at the head of the pipe: called with its own arguments, its result piped on
+		{"u", uint8(7)}, {"ubig", uint64(300)}, {"u16", uint16(65535)}, {"i64", int64(-2)}, {"fl", 2.5}, {"sneg", "-1"},
 		{"double(3)", 6}, {"len(xs)", 3}, {"double(a)", 6}, {"upper('ab')", "AB"}, {"len(s)", 3}}
 	env := c13Env()
 	env["num"] = "12"
 	env["big"] = 300
+	env["u"], env["ubig"], env["u16"], env["i64"], env["fl"], env["sneg"] = uint8(7), uint64(300), uint16(65535), int64(-2), 2.5, "-1"
 	maxLen := 2
 	if r.Thorough() {
 		maxLen = 3
@@ -747,6 +769,17 @@ func asInt(v any) (int, bool) {
 		return x, true
 	case int8:
 		return int(x), true
+	case int64:
+		return int(x), true
+	case uint8:
+		return int(x), true
+	case uint16:
+		return int(x), true
+	case uint64:
+		if x > 1<<62 {
+			return 0, false
+		}
+		return int(x), true
 	case float64: // Go's conversion: the fraction is dropped; a value outside the parameter's range is an error (checked by the caller)
 		if x != x || x < -1e18 || x > 1e18 {
 			return 0, false
@@ -764,7 +797,7 @@ func asStr(v any) (string, bool) {
 	switch x := v.(type) {
 	case string:
 		return x, true
-	case int, int8, bool, float64:
+	case int, int8, int64, uint8, uint16, uint64, bool, float64:
 		return fmt.Sprint(x), true
 	}
 	return "", false
